@@ -908,10 +908,12 @@ func tryReplay(w *World, ex *Exec, o *Obligation) {
 	if variationsUsed > 60*time.Second {
 		return
 	}
-	t0 := time.Now()
-	rp := &replayer{w: w, ex: ex, m: &modelSession{asserts: base, without: o.Without}, judgeMs: 3000}
-	rp.variations(fn, c, o, seedInputs, t0)
-	variationsUsed += time.Since(t0)
+	for round := 0; round < 3 && !o.replayed && variationsUsed <= 60*time.Second; round++ {
+		t0 := time.Now()
+		rp := &replayer{w: w, ex: ex, m: &modelSession{asserts: base, without: o.Without}, judgeMs: 3000, salt: round}
+		rp.variations(fn, c, o, seedInputs, t0)
+		variationsUsed += time.Since(t0)
+	}
 }
 
 // variations: a bounded, deterministic batch of inputs around the candidate (not a proof of anything when it finds
@@ -919,7 +921,7 @@ func tryReplay(w *World, ex *Exec, o *Obligation) {
 var variationsUsed time.Duration
 
 func (rp *replayer) variations(fn *ssa.Function, c *Contract, o *Obligation, seed []interface{}, started time.Time) {
-	rng := uint64(0x9e3779b97f4a7c15) ^ uint64(solverSeed+1)
+	rng := uint64(0x9e3779b97f4a7c15) ^ uint64(solverSeed+1) ^ (uint64(rp.salt+1) * 0xbf58476d1ce4e5b9)
 	next := func(n int) int {
 		rng ^= rng << 13
 		rng ^= rng >> 7
@@ -999,9 +1001,12 @@ func (rp *replayer) variations(fn *ssa.Function, c *Contract, o *Obligation, see
 		case kList:
 			et := t.Underlying().(*types.Slice).Elem()
 			n := next(4)
+			if n < 2 && next(2) == 0 {
+				n = 2 // lists with at least two entries are where duplicate handling shows
+			}
 			out := []interface{}{}
 			for i := 0; i < n; i++ {
-				if i > 0 && next(2) == 0 {
+				if i > 0 && next(3) != 0 {
 					out = append(out, out[0]) // a repeated entry
 				} else {
 					out = append(out, gen(et, depth+1))
@@ -1046,7 +1051,7 @@ func (rp *replayer) variations(fn *ssa.Function, c *Contract, o *Obligation, see
 		}
 		return gen(t, depth)
 	}
-	const nVar = 32
+	const nVar = 48
 	var batch [][]interface{}
 	for k := 0; k < nVar; k++ {
 		var in []interface{}
@@ -1064,7 +1069,30 @@ func (rp *replayer) variations(fn *ssa.Function, c *Contract, o *Obligation, see
 	if len(all) != len(batch) {
 		return
 	}
-	for k, res := range all {
+	// successful calls first: most clauses say what holds on success
+	order := make([]int, 0, len(all))
+	isErr := func(res map[string]interface{}) bool {
+		for name, v := range res {
+			if m, ok := v.(map[string]interface{}); ok && strings.HasPrefix(name, "r") {
+				if _, has := m["error"]; has {
+					return true
+				}
+			}
+		}
+		return false
+	}
+	for k := range all {
+		if !isErr(all[k]) {
+			order = append(order, k)
+		}
+	}
+	for k := range all {
+		if isErr(all[k]) {
+			order = append(order, k)
+		}
+	}
+	for _, k := range order {
+		res := all[k]
 		if os.Getenv("GOVC_TRACE") != "" {
 			ij, _ := json.Marshal(batch[k])
 			rj, _ := json.Marshal(res)
